@@ -56,6 +56,7 @@ type walkStats struct {
 	Stage        int
 	Opened       bool
 	OpenErr      string
+	OpenRead     int64 // bytes pdf.NewReader read from the source
 	Refs         int
 	RefsCapped   bool
 	Fetched      int // Get returned a non-nil object
@@ -182,6 +183,7 @@ func (w *walker) run() {
 	if src.tripped.Load() && w.viol == nil {
 		w.viol = fmt.Errorf("no progress: pdf.NewReader read more than %d bytes from a file of %d bytes (bound 64 MiB + 1000 x size, %d ReadAt calls): the same data is read over and over", src.limit.Load(), size, src.calls.Load())
 	}
+	st.OpenRead = src.n.Load()
 	src.limit.Store(0)
 	src.n.Store(0)
 	if !ok || w.viol != nil {
